@@ -280,7 +280,7 @@ class Builder:
             is_module = False
             if base is not None:
                 root = base.split(".")[0]
-                if root in MODULE_BASES and root not in self.env:
+                if (root in MODULE_BASES or root in getattr(self, 'module_names', ())) and root not in self.env:
                     is_module = True
                 elif self.prog is not None and self.func is not None and root not in self.env and root not in ("self", "cls"):
                     r = self.prog.resolve(self.func.module.name, root)
